@@ -161,3 +161,21 @@ def describe(inp):
             return [d(y) for y in x]
         return x
     return d(inp)
+
+
+# ----------------------------------------------------------------------------- function-level pools (native search for a failing input)
+def function_inputs(target, seed=0, n=400):
+    """yield input dicts (parameter name -> json-able value) for the function `target`, or nothing if no pool is known"""
+    rng = random.Random('%s-%d' % (target, seed))
+    mod, fn = target.split('.')[:2]
+    if mod == 'chord' and fn in ('thirds', 'thirds_inv', 'triads', 'triads_inv', 'tetrads', 'tetrads_inv', 'root', 'mirex', 'majmin',
+                                 'majmin_inv', 'sevenths', 'sevenths_inv'):
+        roots = ['C', 'G', 'Db', 'F#']
+        tails = ['', ':maj', ':min', ':7', ':maj7', ':min7', ':sus4', ':dim', ':aug', ':5', ':1', ':maj/3', ':min/b3', ':maj/2', ':7/b7',
+                 ':maj(b6)', ':maj(#5)', ':maj(9)', ':min(*b3)', ':maj6', ':hdim7', ':maj(*5)', ':maj/5', ':(3)', ':maj7/7']
+        labs = ['N', 'X'] + [r + t for r in roots[:2] for t in tails] + [r + t for r in roots[2:] for t in tails[:6]]
+        for a in labs:
+            yield dict(reference_labels=[a], estimated_labels=[a])
+        for _ in range(n):
+            k = rng.randint(1, 3)
+            yield dict(reference_labels=[rng.choice(labs) for _ in range(k)], estimated_labels=[rng.choice(labs) for _ in range(k)])
